@@ -14,7 +14,7 @@ PROPS = {
                       "(instant shifted exactly, same representation and offset, all fields valid) under the mode the trace spec tracks; "
                       "systematic day-by-day sweeps over every year type and mode plus seeded random points/durations.",
         "drivers": ["c01", "suite_add"],
-        "mc": [{"module": "MC_C01.tla", "cfg": "MC_C01.cfg"},
+        "mc": [{"module": "MC_C01.tla", "cfg": "MC_C01.cfg", "coverage": True},
                {"module": "MC_C01.tla", "cfg": "MC_C01_twin1.cfg", "expect_violation": True},
                {"module": "MC_C01.tla", "cfg": "MC_C01_twin2.cfg", "expect_violation": True, "tier": "thorough"},
                {"module": "MC_C01.tla", "cfg": "MC_C01_twin3.cfg", "expect_violation": True, "tier": "thorough"}],
@@ -54,7 +54,7 @@ PROPS = {
                       "exact->months->years; TLC requires every recorded result of the library to carry exactly the date fields, time of day, "
                       "offset and representation the definition gives, from every month end / leap day / day 366 / week 53 of each year type.",
         "drivers": ["c05"],
-        "mc": [{"module": "MC_C05.tla", "cfg": "MC_C05.cfg"},
+        "mc": [{"module": "MC_C05.tla", "cfg": "MC_C05.cfg", "coverage": True},
                {"module": "MC_C05.tla", "cfg": "MC_C05_twin1.cfg", "expect_violation": True},
                {"module": "MC_C05.tla", "cfg": "MC_C05_twin2.cfg", "expect_violation": True, "tier": "thorough"},
                {"module": "MC_C05.tla", "cfg": "MC_C05_twin3.cfg", "expect_violation": True, "tier": "thorough"}], "expect_ops": ["Add"],
@@ -92,8 +92,8 @@ PROPS = {
                       "stopping is accepted only with exactly n points including the anchor, and the three notations of an exact finite series "
                       "must be equal and iterate identically.",
         "drivers": ["c12"],
-        "mc": [{"module": "MC_C12.tla", "cfg": "MC_C12.cfg", "may_be_idle": ["ShiftAct"]},
-               {"module": "MC_C12.tla", "cfg": "MC_C12_nominal.cfg", "may_be_idle": ["ShiftAct"]},
+        "mc": [{"module": "MC_C12.tla", "cfg": "MC_C12.cfg", "may_be_idle": ["ShiftAct"], "coverage": True},
+               {"module": "MC_C12.tla", "cfg": "MC_C12_nominal.cfg", "may_be_idle": ["ShiftAct"], "coverage": True},
                {"module": "MC_C12.tla", "cfg": "MC_C12_twin1.cfg", "expect_violation": True},
                {"module": "MC_C12.tla", "cfg": "MC_C12_twin2.cfg", "expect_violation": True, "tier": "thorough"},
                {"module": "MC_C12.tla", "cfg": "MC_C12_known.cfg", "expect_violation": True}], "expect_ops": ["IterOpen", "IterNext", "IterStop", "IterAbandon", "Notations"],
@@ -107,7 +107,7 @@ PROPS = {
                       "get_is_valid, r[i], get_next, get_prev and get_first_after are then judged by TLC against that series on the timeline, "
                       "for members re-expressed in other offsets/representations, points 1 s either side, before the first and after the last.",
         "drivers": ["c13"],
-        "mc": [{"module": "MC_C12.tla", "cfg": "MC_C12.cfg", "may_be_idle": ["ShiftAct"]},
+        "mc": [{"module": "MC_C12.tla", "cfg": "MC_C12.cfg", "may_be_idle": ["ShiftAct"], "coverage": True},
                {"module": "MC_C12.tla", "cfg": "MC_C12_twin3.cfg", "expect_violation": True}], "expect_ops": ["IterOpen", "IterNext", "Query"],
         "rule": "one case = one recurrence with ~5 probes per member x 5 query kinds; all cases non-trivial",
         "assumptions": TRUST,
@@ -119,7 +119,7 @@ PROPS = {
                       "differing in exactly one component / respelled / rebuilt are judged for ==, != , hash and identical iteration; "
                       "parse(str(r)) must equal r with the same points.",
         "drivers": ["c14"],
-        "mc": [{"module": "MC_C12.tla", "cfg": "MC_C14.cfg"}, {"module": "MC_C12.tla", "cfg": "MC_C14_exact4.cfg"},
+        "mc": [{"module": "MC_C12.tla", "cfg": "MC_C14.cfg", "coverage": True}, {"module": "MC_C12.tla", "cfg": "MC_C14_exact4.cfg"},
                {"module": "MC_C12.tla", "cfg": "MC_C14_twin1.cfg", "expect_violation": True}], "expect_ops": ["Shift", "RecEq", "RecText"],
         "rule": "one case = one shift, one pair, or one text round trip; all non-trivial (single-point recurrences of every notation included)",
         "assumptions": TRUST,
@@ -133,7 +133,7 @@ PROPS = {
                       "histories that interleave queries, arithmetic, subtraction and conversions, is replayed in one live Python process "
                       "without clearing caches; the trace spec tracks the mode through SetMode events and judges every event under it.",
         "drivers": ["c15"],
-        "mc": [{"module": "MC_C15.tla", "cfg": "MC_C15.cfg", "cfg_quick": "MC_C15_quick.cfg"},
+        "mc": [{"module": "MC_C15.tla", "cfg": "MC_C15.cfg", "cfg_quick": "MC_C15_quick.cfg", "coverage": True},
                 {"module": "MC_C15.tla", "cfg": "MC_C15_twin1.cfg", "expect_violation": True},
                 {"module": "MC_C15.tla", "cfg": "MC_C15_twin2.cfg", "expect_violation": True},
                 {"module": "MC_C15.tla", "cfg": "MC_C15_twin3.cfg", "expect_violation": True},
@@ -185,7 +185,7 @@ PROPS = {
                       "than p, is the EARLIEST such date-time (no matching day in between, least matching time of day), carries p's offset, is "
                       "valid, and that applying t again changes nothing; every call runs under a 5 s watchdog.",
         "drivers": ["c20"],
-        "mc": [{"module": "MC_C20.tla", "cfg": "MC_C20.cfg"},
+        "mc": [{"module": "MC_C20.tla", "cfg": "MC_C20.cfg", "coverage": True},
                {"module": "MC_C20.tla", "cfg": "MC_C20_twin1.cfg", "expect_violation": True},
                {"module": "MC_C20.tla", "cfg": "MC_C20_twin2.cfg", "expect_violation": True},
                {"module": "MC_C20.tla", "cfg": "MC_C20_known.cfg", "expect_violation": True}], "expect_ops": ["TruncAdd"],
